@@ -18,15 +18,15 @@ fn p(s: &RunStats, k: &str) -> u64 {
     s.probes.get(k).copied().unwrap_or(0)
 }
 
-fn gen_w1(prop: &str, seed: u64, _tier: Tier) -> Scenario {
+fn gen_w1(prop: &str, seed: u64, _tier: Tier, _idx: u64) -> Scenario {
     Scenario::W1(crate::w1gen::generate(prop, seed))
 }
 
-fn gen_w3(prop: &str, seed: u64, _tier: Tier) -> Scenario {
+fn gen_w3(prop: &str, seed: u64, _tier: Tier, _idx: u64) -> Scenario {
     Scenario::W3(crate::w3gen::generate(prop, seed))
 }
 /// mixes the direct world (W1/W2) with the environment world (W3); the share is fixed per property
-fn gen_mixed(prop: &str, seed: u64, tier: Tier) -> Scenario {
+fn gen_mixed(prop: &str, seed: u64, tier: Tier, idx: u64) -> Scenario {
     let w3_share = match prop {
         "C05" => 30,
         "C12" => 20,
@@ -35,9 +35,9 @@ fn gen_mixed(prop: &str, seed: u64, tier: Tier) -> Scenario {
         _ => 0,
     };
     if crate::rng::mix(seed, 0x77_33) % 100 < w3_share {
-        gen_w3(prop, seed, tier)
+        gen_w3(prop, seed, tier, idx)
     } else {
-        gen_w1(prop, seed, tier)
+        gen_w1(prop, seed, tier, idx)
     }
 }
 const REAL_ENV: &[&str] = &[
@@ -56,6 +56,33 @@ fn nt_c11(s: &RunStats) -> bool {
 }
 fn nt_c14(s: &RunStats) -> bool {
     (p(s, "op_with_trades") >= 1 && s.ops >= 5) || (p(s, "step_with_trades") >= 1 && p(s, "plain_book_replays") >= 1)
+}
+
+fn gen_w4(prop: &str, seed: u64, _tier: Tier, _idx: u64) -> Scenario {
+    Scenario::W4(crate::w4gen::generate(prop, seed))
+}
+fn gen_shape(prop: &str, seed: u64, _tier: Tier, idx: u64) -> Scenario {
+    Scenario::Shape(crate::w4probe::generate(prop, seed, idx))
+}
+fn gen_stat(prop: &str, seed: u64, _tier: Tier, idx: u64) -> Scenario {
+    Scenario::Stat(crate::w3stat::generate(prop, seed, idx))
+}
+const REAL_AGENTS: &[&str] = &[
+    "bourse-de built-in agents (RandomAgents, NoiseAgent, MomentumAgent and their multi-asset variants), sim_runner / market_sim_runner, Env / MarketEnv<A,10>",
+    "bourse-macros #[derive(AgentSet)] / #[derive(MarketAgentSet)] expansions (8-slot sets)",
+    "rand 0.8.5 / rand_distr 0.4.3 (LogNormal, gen_range, gen_bool), Xoroshiro128** behind the harness's SeamRng, kdam progress bar (child process)",
+];
+fn nt_ops(s: &RunStats) -> bool {
+    s.ops >= 2
+}
+fn nt_c16(s: &RunStats) -> bool {
+    p(s, "agent_orders_checked") >= 3
+}
+fn nt_c17(s: &RunStats) -> bool {
+    p(s, "step_M_positive") >= 1 && p(s, "step_M_negative") >= 1
+}
+fn nt_any(_s: &RunStats) -> bool {
+    true
 }
 
 fn nt_c01(s: &RunStats) -> bool {
@@ -91,6 +118,7 @@ pub fn specs() -> Vec<CheckSpec> {
             runs_quick: 200_000,
             runs_thorough: 12_000_000,
             rule: "seeded histories of create/place/create-and-place/cancel/process_event/set_time on one OrderBook<L> (tick 1..10, L 1..24, clock discipline); refinement against the reference engine after every operation plus a final drain probe. Non-trivial = at least one trade, one partial fill of a queue head and a same-price FIFO of depth >= 2 exercised; distinct = distinct digest of the complete final observation",
+            finalize: None,
             nontrivial: nt_c01,
             real: REAL_BOOK,
             stub: NO_STUB,
@@ -104,6 +132,7 @@ pub fn specs() -> Vec<CheckSpec> {
             runs_quick: 150_000,
             runs_thorough: 8_000_000,
             rule: "histories incl. modifications, trading halts and snapshot reloads on OrderBook<L> and Market<A,L>; every published view recomputed from get_orders() alone after every operation (no model), mid-price included, non-crossing clause while trading was never disabled. Non-trivial = at least one trade and >= 5 applied operations; distinct = final observation digest",
+            finalize: None,
             nontrivial: nt_trades,
             real: REAL_BOOK,
             stub: NO_STUB,
@@ -117,6 +146,7 @@ pub fn specs() -> Vec<CheckSpec> {
             runs_quick: 150_000,
             runs_thorough: 8_000_000,
             rule: "histories incl. trading modifications, halts and reset_trade_vol; model-free ledger audit after every operation (prefix immutability, per-trade field checks, per-order volume reconciliation, cumulative counter). Non-trivial = at least one trade and >= 5 applied operations",
+            finalize: None,
             nontrivial: nt_trades,
             real: REAL_BOOK,
             stub: NO_STUB,
@@ -130,6 +160,7 @@ pub fn specs() -> Vec<CheckSpec> {
             runs_quick: 150_000,
             runs_thorough: 8_000_000,
             rule: "histories dominated by duplicate / stale requests (place, cancel, modify against orders in every status; market orders while halted); lifecycle transition relation on every order after every operation and full-snapshot equality around every redundant request. Non-trivial = at least one redundant request and one trade",
+            finalize: None,
             nontrivial: nt_c04,
             real: REAL_BOOK,
             stub: NO_STUB,
@@ -143,6 +174,7 @@ pub fn specs() -> Vec<CheckSpec> {
             runs_quick: 150_000,
             runs_thorough: 8_000_000,
             rule: "populated queues then every modify shape (price None/each alphabet price x volume None/smaller/equal/larger) against orders in every status, continuations and a drain probe that turns queue order into trade order; reference engine + model-free modify invariants. Non-trivial = at least one in-place reduction and one re-queuing modification",
+            finalize: None,
             nontrivial: nt_c06,
             real: REAL_BOOK,
             stub: NO_STUB,
@@ -156,6 +188,7 @@ pub fn specs() -> Vec<CheckSpec> {
             runs_quick: 120_000,
             runs_thorough: 6_000_000,
             rule: "tie mode: histories on OrderBook<L> / Market<A,L> in which the clock is NOT advanced between queue insertions at one price (tie rate up to 80%, narrow alphabet share 60%), with cancels, modifications, aggressors, snapshot reloads and a final drain probe; all monitors of C01-C04/C06 run with the reference engine in FIFO tie semantics; a key-collision twin classifies divergences. Non-trivial = at least one queue insertion that shared (side, price, timestamp) with a resting order",
+            finalize: None,
             nontrivial: nt_c05,
             real: REAL_BOOK,
             stub: NO_STUB,
@@ -169,6 +202,7 @@ pub fn specs() -> Vec<CheckSpec> {
             runs_quick: 40_000,
             runs_thorough: 2_000_000,
             rule: "crash-restart fault: at seed-chosen operation boundaries the book / market is serialised (to_string, to_string_pretty, save_json compact/pretty) and restored (from_str / load_json) into the same or another level count; the original is dropped (crash) or kept as a twin; immediate complete-observation equality, lock-step equality under all later operations (reference engine too), drain probe; torn-write fault: every strict prefix of a written file must be rejected by load_json. Non-trivial = at least one restart or twin and at least one trade",
+            finalize: None,
             nontrivial: nt_c07,
             real: REAL_BOOK,
             stub: NO_STUB,
@@ -182,6 +216,7 @@ pub fn specs() -> Vec<CheckSpec> {
             runs_quick: 60_000,
             runs_thorough: 3_000_000,
             rule: "sequences of steps on Env<L> / MarketEnv<A,L> with batches (0..12) of interacting new / cancel / modify instructions (several per order, targets created in the same step, duplicates, stale ids), steered and unsteered shuffles, halts; after each step the schedule is inferred from arrival / end timestamps and trades, and the belief set of reference-engine states consistent with everything observed is carried on; direct clauses (clock = start + step size, step volume = this step's trades) and a real plain OrderBook replaying the inferred schedule. Non-trivial = at least one step with trades and one step processed in a non-identity order",
+            finalize: None,
             nontrivial: nt_c08,
             real: REAL_ENV,
             stub: NO_STUB,
@@ -190,11 +225,26 @@ pub fn specs() -> Vec<CheckSpec> {
             expected_probes: &["steered_schedule", "steering_hit", "non_identity_schedule", "step_with_trades", "plain_book_replays", "trading_halt"],
         },
         CheckSpec {
+            id: "C09",
+            generate: gen_w4,
+            runs_quick: 3_000,
+            runs_thorough: 200_000,
+            rule: "complete simulations (1..200 steps) of every composition of the built-in agent types, single- and multi-asset, combined through the derive macros; digest of all orders, trades, recorded level-2 history and per-step volumes compared across: two in-process runs of the shipped runner, the documented manual loop driven by the harness's seeded generator, a separate OS process under perturbations (progress bar on, shifted heap, other environment / cwd, stderr null / pipe / file, non-main thread), and (guaranteed-activity configurations) 16 distinct seeds not all equal. Non-trivial = at least 2 steps",
+            finalize: None,
+            nontrivial: nt_ops,
+            real: REAL_AGENTS,
+            stub: NO_STUB,
+            assumptions: &["agent parameters consistent with the environment", "one OS, one build: cross-machine reproducibility is out of reach of a single sandbox", "sampling, not enumeration"],
+            explanation: "replay determinism: same seed and parameters must give bit-identical observable output under process-level perturbations",
+            expected_probes: &["in_process_rerun", "manual_loop_with_seam_rng", "separate_process", "progress_bar_branch", "shifted_heap", "non_main_thread", "other_environment", "seeds_differ_checked"],
+        },
+        CheckSpec {
             id: "C10",
             generate: gen_w3,
             runs_quick: 60_000,
             runs_thorough: 3_000_000,
             rule: "interleavings of submissions and steps on Env<L> / MarketEnv<A,L>, the bulk of the instructions being ones that would trade / cancel / re-price at once if applied directly; the complete observation of the environment (live book, market data, orders, trades, every recorded series, cached level-2 snapshot) is compared before and after every single submission: nothing may change except one appended order with status New; cached level_2_data() equals the live book's at construction and after every step. Non-trivial = at least two steps and three instructions",
+            finalize: None,
             nontrivial: nt_steps,
             real: REAL_ENV,
             stub: NO_STUB,
@@ -208,6 +258,7 @@ pub fn specs() -> Vec<CheckSpec> {
             runs_quick: 60_000,
             runs_thorough: 3_000_000,
             rule: "step sequences on asymmetric books (bid and ask volumes, counts and depths differ by construction) for every compiled level count, each asset; after step k every recorded series must have k entries, entry k-1 must equal the value read from the live book (bid series <-> bid getters, level i <-> level i), earlier entries must be unchanged, per-step traded volume = sum of the trades appended / time-stamped in the step. Non-trivial = an asymmetric book recorded and >= 2 steps",
+            finalize: None,
             nontrivial: nt_c11,
             real: REAL_ENV,
             stub: NO_STUB,
@@ -221,6 +272,7 @@ pub fn specs() -> Vec<CheckSpec> {
             runs_quick: 150_000,
             runs_thorough: 8_000_000,
             rule: "creation requests with arbitrary prices (on/off grid, extremes) through OrderBook and Market at random points of histories, off-grid re-price as a final operation; create Ok <=> price % tick == 0, full-snapshot equality around rejected creations, dense next id, all order prices on the grid, per-level data accounts for resting volume. Non-trivial = at least one off-grid creation request",
+            finalize: None,
             nontrivial: nt_c12,
             real: REAL_BOOK,
             stub: NO_STUB,
@@ -234,6 +286,7 @@ pub fn specs() -> Vec<CheckSpec> {
             runs_quick: 150_000,
             runs_thorough: 8_000_000,
             rule: "histories with the trading switch toggled at arbitrary points (also constructed halted), crossing placements and re-prices while halted, aggressors after resuming; reference engine with the flag + model-free clauses (no trade while halted, rejected market orders leave the book untouched, a toggle alone changes nothing). Non-trivial = at least one halt and one trade",
+            finalize: None,
             nontrivial: nt_c13,
             real: REAL_BOOK,
             stub: NO_STUB,
@@ -247,12 +300,69 @@ pub fn specs() -> Vec<CheckSpec> {
             runs_quick: 80_000,
             runs_thorough: 4_000_000,
             rule: "Market<A,L> driven directly (A = 1..4, per-asset tick sizes, colliding local ids) and MarketEnv<A,L> driven through shuffled batches across assets; per-asset stand-alone real OrderBooks receive that asset's operations at the same times (environment: the times inferred by the belief-set oracle); every per-asset and all-asset query must equal the twins' values in asset order, an operation on one asset must leave every other asset's observation unchanged. Non-trivial = trades and >= 5 operations (direct) or a step with trades replayed on the stand-alone books (environment)",
+            finalize: None,
             nontrivial: nt_c14,
             real: REAL_ENV,
             stub: NO_STUB,
             assumptions: &["valid histories as stated in the property", "sampling, not enumeration"],
             explanation: "lock-step twins: the multi-asset object against independent single-asset books",
             expected_probes: &["op_with_trades", "plain_book_replays", "step_with_trades"],
+        },
+        CheckSpec {
+            id: "C15",
+            generate: gen_stat,
+            runs_quick: 3_600,
+            runs_thorough: 45_000,
+            rule: "fully observable batches (every position pinned by an arrival or end timestamp) of sizes 2,3,4,5,6,8,16,32,64; 50 steps per run; deterministic part: two environments given the same generator state and batch size but different instructions (new orders vs. a mix with cancels, other assets, other submission order) must process them in the same positions; statistical part over the whole batch: all n! cells for n<=6, position-by-item and pairwise-order tables for every size, each cell within the exact Bernstein bound with a union bound over all cells (false-alarm probability < 1e-9 per run). Non-trivial: every run",
+            finalize: Some(crate::w3stat::finalize),
+            nontrivial: nt_any,
+            real: REAL_ENV,
+            stub: NO_STUB,
+            assumptions: &["power is finite: at n=6 only gross per-permutation bias is detectable at the quick budget; marginal tables are much sharper", "fresh generator per step and consecutive steps on one generator are both sampled"],
+            explanation: "seeded search over schedules: counts of inferred permutations against exact concentration bounds",
+            expected_probes: &["content_independence_checked", "fresh_seed_steps", "consecutive_steps_one_generator"],
+        },
+        CheckSpec {
+            id: "C16",
+            generate: gen_w4,
+            runs_quick: 20_000,
+            runs_thorough: 1_500_000,
+            rule: "simulations of the built-in agents in the manual loop, one update call per agent group at a time; the harness reads the instruction queue (verification hook) and the order list before and after every update and checks every created order and every cancellation (grid, range, side of the observed mid-price, volume, trader id, ownership, active when looked at), the deterministic corners of the activity rules (probability 0 / >= 1) and that nothing aborts; generator fault injection (boundary draws 0, all-ones, 1, top bit at sparse indices); tick 1..10, heavy-tailed price distributions (sigma up to 10), empty / one-sided / two-sided starting books, 1..200 steps. Non-trivial = at least 3 agent orders checked",
+            finalize: None,
+            nontrivial: nt_c16,
+            real: REAL_AGENTS,
+            stub: NO_STUB,
+            assumptions: &["parameterisations consistent with the environment: agent tick size = asset tick size, non-empty tick / volume ranges inside the price domain, finite distribution parameters", "sampling, not enumeration"],
+            explanation: "per-update audit of emitted instructions with randomness faults injected through the RngCore seam",
+            expected_probes: &["agent_orders_checked", "agent_cancels_checked", "corner_p_ge_1", "corner_p_eq_0", "corner_p_cancel_0_with_live_orders", "corner_p_cancel_1_with_live_orders", "rng_boundary_value", "limit_price_clamped_to_range_end"],
+        },
+        CheckSpec {
+            id: "C17",
+            generate: gen_w4,
+            runs_quick: 20_000,
+            runs_thorough: 1_500_000,
+            rule: "one momentum agent group (single- and multi-asset) under mid-price paths imposed by a harness quoting client (rising, falling, mixed, flat; half-tick mids); the harness recomputes M and demand*tanh(scale*M)/n from the mids it observed; direction of every order must follow the sign of M, nothing when M = 0; at saturated demand (|p| >= 1) exactly n market (and, when order_ratio*|p| >= 1, n limit) orders on that side; mirrored run (path mirrored about a grid level, same seed, market orders only) must swap buys and sells step by step. Non-trivial = steps with positive and with negative momentum",
+            finalize: None,
+            nontrivial: nt_c17,
+            real: REAL_AGENTS,
+            stub: NO_STUB,
+            assumptions: &["the harness's recurrence for M is the documented one, evaluated in the same floating-point order", "sampling, not enumeration"],
+            explanation: "differential oracle (documented rule at saturation) + mirrored-run symmetry",
+            expected_probes: &["step_M_positive", "step_M_negative", "step_M_zero", "saturated_step", "saturated_limit_step", "mirrored_run"],
+        },
+        CheckSpec {
+            id: "C20",
+            generate: gen_shape,
+            runs_quick: 20_000,
+            runs_thorough: 400_000,
+            rule: "a generated catalogue of struct shapes (64 per macro; 1..8 fields, four probe agent types with repetitions, fields that are themselves derived sets up to depth 2, field names not in alphabetical order) for #[derive(AgentSet)] and #[derive(MarketAgentSet)] (instantiated for MarketEnv<1,10>, <2,3>, <3,1>); log of the derived update == log of the hand-written sequence == the sequence implied by the declaration order, draw by draw (one continuous generator stream) and order count by order count (one shared environment), over 1..4 calls and random seeds. Non-trivial: every run; distinct = (macro, shape, instantiation, calls)",
+            finalize: None,
+            nontrivial: nt_any,
+            real: &["bourse-macros derive expansions compiled by rustc into the simulator (the real proc-macro from /repo/crates/macros)", "bourse-de Env / MarketEnv, Agent / AgentSet traits"],
+            stub: &["probe agents (harness-defined agent types that log their calls) instead of the built-in agents"],
+            assumptions: &["covers the compiled catalogue only (finite family of programs); thorough additionally compiles a fresh catalogue derived from VERIF_SEED"],
+            explanation: "call-by-call and draw-by-draw comparison with the hand-written equivalent over a generated family of struct shapes",
+            expected_probes: &["agent_set", "market_agent_set", "nested_set_shape", "repeated_type_shape", "shape_1_field", "shape_8_fields"],
         },
     ]
 }
